@@ -11,7 +11,9 @@ from harness.common import PY, VERIF, Check, Driver, env_child, report_broken_ob
 
 CHILD = os.path.join(VERIF, "harness", "c13_child.py")
 CORE = ["unparse", "dump", "has_import", "has_call", "unsafe_imports", "non_standard_imports",
-        "safety", "trace", "dumps"]
+        "safety", "trace", "dumps", "interp_cli"]
+VIEWS13 = cachelib.VIEWS + ["interp_cli"]
+MODELQ = {"interp_cli": "len"}      # the model is asked a harmless stand-in; that step is not compared
 TWO_UNUSED = [("GLOBAL", ("os", "getcwd")), "EMPTY_TUPLE", "REDUCE", "POP",
               ("GLOBAL", ("os", "getpid")), "EMPTY_TUPLE", "REDUCE", "POP", "NONE", "STOP"]
 MANY_UNUSED = [x for k in range(6) for x in
@@ -92,7 +94,7 @@ def run_case(case):
     line = None
     if in_model and not any(s == "ERR RecursionError" for s in steps):
         stds, reprs = pool.tables()
-        line = sx(["cache_run", sexps, [["read", q] for q in case["queries"]], stds, reprs, "id"])
+        line = sx(["cache_run", sexps, [["read", MODELQ.get(q, q)] for q in case["queries"]], stds, reprs, "id"])
     return {"steps": steps, "bad": bad, "known": known, "line": line, "ids": ",".join(map(str, ids)),
             "std": std, "nfind": len(std["findings"])}
 
@@ -249,7 +251,7 @@ def main(tier, seed):
     chk.stats["exhaustive-orderings"] = len(cases)
     pk = gen_pickles(chk, nrand)
     for kind, data in pk:
-        qs = [rng.choice(cachelib.VIEWS) for _ in range(rng.randrange(1, 9))]
+        qs = [rng.choice(VIEWS13) for _ in range(rng.randrange(1, 9))]
         cases.append({"kind": kind, "hex": data.hex(), "queries": qs})
     results = run_real(cases)
     lines, idx = [], []
@@ -293,7 +295,7 @@ def main(tier, seed):
         for n, (q, real, ms) in enumerate(zip(c["queries"], r["steps"], msteps)):
             cut = ms.rfind(" ids=")
             mans, mids = ms[4:cut], ms[cut + 5:]
-            why = cachelib.compare_answer(real, mans)
+            why = None if q in MODELQ else cachelib.compare_answer(real, mans)
             if tainted and q in cachelib.PROPS_VIEWS and why and not why.startswith("skip:"):
                 why = "skip:known-" + cachelib.KNOWN_SIG
             if q in cachelib.PROPS_VIEWS and real.startswith("ERR"):
